@@ -31,6 +31,7 @@ From RM Require Import Model.EncTimingSpec Proofs.ControlPointsFacts Proofs.EncT
 From RM Require Import Proofs.Enc2Values Proofs.Enc2Samples Proofs.Enc2Float Proofs.Enc2Timing Proofs.Enc2Slider Proofs.Enc2Examples.
 From RM Require Proofs.Enc2SvReal.
 From RM Require Import Proofs.Enc2SvRT Proofs.Enc2Framing Proofs.Enc2SampleShape.
+From RM Require Import Proofs.Enc3Framing Proofs.Enc3Timing.
 From Coq Require Reals.
 From RM Require Model.Curve.
 From RM Require Import Model.DrvEnc Proofs.EncMapImage.
@@ -895,6 +896,64 @@ Example C02_sliders_example :
   | _ => False
   end.
 Proof. exact sliders_example. Qed.
+
+(* ---------- the computed sections composed with the framing theorem ---------- *)
+
+(* T02d composed (in the style of C02_decode_of_encoding_simple_sections): for every decoded map m
+   outside D23 and the recorded classes of T02d ([rt_classes] at the map's own mode: D28 / D8, D27,
+   D12, D26 / D32), every line list ls the encoder produces for it, every formatting satisfying
+   [fmt_ok] / [no_leading_zero] and whatever the curve function of the second decode: if the second
+   decode of `map render ls` succeeds with m2, then m2 has the timing points of m and the
+   slider-velocity / kiai / scroll-speed timelines of m2 and m agree at every time.  (The [General]
+   section of the encoding is parsed before [TimingPoints]: the mode in force while the timing lines
+   are read is the map's mode.) *)
+Theorem C02_decode_of_encoding_timing :
+  forall fmt_f64 fmt_f32 fmt_int, fmt_ok fmt_f64 fmt_f32 fmt_int -> no_leading_zero fmt_int ->
+  forall dist events lines m c ls dist2 m2,
+  Forall no_lf_line lines -> decode_beatmap dist lines = Done m -> d23_class m = false ->
+  enc_control_points dist events m = Done c ->
+  rt_classes (g_mode (hov_general (bmv_ho m))) c = true ->
+  encode_lines dist events m = Done ls ->
+  decode_beatmap dist2 (map (render fmt_f64 fmt_f32 fmt_int) ls) = Done m2 ->
+  let c0 := hov_control_points (bmv_ho m) in
+  let c2 := hov_control_points (bmv_ho m2) in
+  cp_timing c2 = cp_timing c0 /\
+  (forall t, sv_at c2 t = sv_at c0 t) /\
+  (forall t, kiai_at c2 t = kiai_at c0 t) /\
+  (forall t, scroll_at c2 t = scroll_at c0 t).
+Proof.
+  intros f64 f32 fi Hfmt Hlead dist events lines m c ls dist2 m2 H1 H2 H3 H4 H5 H6 H7.
+  exact (decoded_encoding_timing f64 f32 fi Hfmt Hlead dist events lines m c ls dist2 m2 H1 H2 H3 H4 H5 H6 H7).
+Qed.
+Print Assumptions C02_decode_of_encoding_timing.
+
+(* how the second decode computes its control points and hit objects from the two computed
+   sections of the encoding: [tp_run] / [tp_finish] on the [TimingPoints] body and [ho_run] on the
+   [HitObjects] body, both in the General state of [read_back m]; then the map-level processing
+   with the breaks, slider multiplier and mode of [read_back m] *)
+Theorem C02_encoding_computed_sections :
+  forall fmt_f64 fmt_f32 fmt_int, fmt_ok fmt_f64 fmt_f32 fmt_int ->
+  forall dist events lines m ls dist2 m2,
+  Forall no_lf_line lines -> decode_beatmap dist lines = Done m -> d23_class m = false ->
+  encode_lines dist events m = Done ls ->
+  decode_beatmap dist2 (map (render fmt_f64 fmt_f32 fmt_int) ls) = Done m2 ->
+  exists tp ho,
+    enc_timing_points dist events m = Done (header_tok SecTimingPoints :: tp) /\
+    object_lines dist (g_mode (hov_general (bmv_ho m))) (hov_hit_objects (bmv_ho m)) = Done ho /\
+    let r := bmv_ho (read_back m) in
+    forall ts rs, tp_run (tp_init (tpg_of (hov_general r))) (map (render fmt_f64 fmt_f32 fmt_int) tp) = Done (ts, rs) ->
+      tp_finish ts = Done (hov_control_points (bmv_ho m2)) /\
+      exists hs hrs,
+        ho_run (ho_create (g_mode (hov_general r))) (map (render fmt_f64 fmt_f32 fmt_int) ho) = Done (hs, hrs) /\
+        finish_hit_objects dist2 (hov_control_points (bmv_ho m2)) (ev_breaks (hov_events r))
+          (d_slider_multiplier (hov_difficulty r)) (g_mode (hov_general r)) (ho_objects hs) =
+        Done (hov_hit_objects (bmv_ho m2)).
+Proof.
+  intros f64 f32 fi Hfmt dist events lines m ls dist2 m2 Hl Hd H23 He Hd2.
+  exact (encoding_computed_sections_decoded f64 f32 fi Hfmt dist events m ls dist2 m2
+           (decode_image_inv dist lines m Hl Hd H23) He Hd2).
+Qed.
+Print Assumptions C02_encoding_computed_sections.
 
 (* ---------- status of the remaining obligations ----------
 
